@@ -7,8 +7,8 @@
 (* bounds.oriented_bounds(_2D), nsphere.minimum_nsphere, .bounding_sphere, *)
 (* bounds.minimum_cylinder, .bounding_cylinder.                            *)
 (*                                                                         *)
-(* INPUT.  c.pts is the sequence of input points (vertices of the mesh),   *)
-(* integer coordinates in 0..3, c.dim in {2, 3}.  The implementation was   *)
+(* INPUT.  c.pts is the sequence of input points (vertices of the mesh, at  *)
+(* most 16), integer coordinates in 0..3, c.dim in {2, 3}.  The implementation was   *)
 (* handed  q = (p + off) * sc  (c.off an integer vector, 0 or +-10^4 per   *)
 (* axis; c.sc in {1, 2^10}): every such q is an exact double, and so is    *)
 (* the way back  p = q / sc - off.  Translation and scaling by a positive  *)
@@ -40,7 +40,7 @@
 (*          inputs whose centre lies in conv(S) and which contains every   *)
 (*          input (that ball is unique).  The harness snaps the reported   *)
 (*          centre to fractions of denominator <= 2000 (residual <= 1e-7)  *)
-(*          and r^2 cd^2 to an integer (residual <= 0.01): then containment*)
+(*          and r^2 cd^2 to an integer (residual <= 0.05): then containment*)
 (*          is the exact inequality and, for inputs in general position    *)
 (*          (3D: no five inputs on a common sphere; 2D: no four on a       *)
 (*          common circle; by in-sphere / in-circle determinants), the     *)
@@ -49,6 +49,9 @@
 (*          containment with slack EPS, centre within EPS of the MEB centre*)
 (*          per axis and some input within 2 EPS of the boundary.          *)
 (*          For inputs not in general position only containment is stated. *)
+(*          An accepted sphere record is reported back as a note_... line  *)
+(*          (which form was decided, how many inputs lie on the boundary   *)
+(*          of the exact ball): coverage, not a rejection.                 *)
 (*                                                                         *)
 (* FIXED-POINT part (the weakest checks; values are round(x * 10^4)):      *)
 (*  obb     W (rotation rows) and t of the matrix taking input coordinates *)
